@@ -243,7 +243,7 @@ def gen_tile_source(rng, R0):
     elif rel == 'sub_ladder':
         cg['res'] = g['res'][1:] if rng.random() < 0.5 else g['res'][::2]
     elif rel in ('sub_bbox', 'bigger_bbox', 'shifted'):
-        k = rng.randrange(len(g['res']))
+        k = rng.randrange(len(g['res']) - 1)     # (tile services need at least two levels)
         sx, sy = g['res'][k] * tw, g['res'][k] * th
         cg['res'] = g['res'][k:]
         W, H = g['bbox'][2] - g['bbox'][0], g['bbox'][3] - g['bbox'][1]
